@@ -672,11 +672,9 @@ func c18IsName(target string, dst netip.AddrPort, sn c18Sniff) error {
 	return nil
 }
 
-const c18FindingLiteralPort = "F-C18-1"
-
 // c18Judge applies the table + well-formedness. Returns the kind actually taken
 // ("dst"/"name") and an error describing a violation.
-func c18Judge(v c18Verdict, got c18Got, dst netip.AddrPort, sn c18Sniff, allowF1 bool) (took string, knownF1 bool, err error) {
+func c18Judge(v c18Verdict, got c18Got, dst netip.AddrPort, sn c18Sniff) (took string, literalPortAsDomain bool, err error) {
 	if _, _, _, e := c18WellFormed(got.Target); e != nil {
 		return "", false, e
 	}
@@ -709,9 +707,11 @@ func c18Judge(v c18Verdict, got c18Got, dst netip.AddrPort, sn c18Sniff, allowF1
 	// a literal IP is never sent as a "domain"
 	_, _, lit, _ := c18WellFormed(got.Target)
 	if lit.IsValid() && !got.DialIp {
-		if allowF1 && sn.IPLike && sn.Port != "" && took == "name" {
-			// literal:port handed through verbatim with dialIp=false (finding F-C18-1)
-			knownF1 = true
+		if sn.IPLike && sn.Port != "" && took == "name" {
+			// sniffed literal:port / [literal]:port handed on with dialIp=false: the
+			// statement does not speak about the flag for this shape; accepted
+			// (counted as a class only).
+			literalPortAsDomain = true
 		} else {
 			return "", false, fmt.Errorf("cell %s: target %q is an address literal but dialIp=false (sent as a domain)", v.Cell, got.Target)
 		}
@@ -725,7 +725,7 @@ func c18Judge(v c18Verdict, got c18Got, dst netip.AddrPort, sn c18Sniff, allowF1
 	case v.Reroute < 0 && got.Reroute:
 		return "", false, fmt.Errorf("cell %s: shouldReroute=true, forbidden here", v.Cell)
 	}
-	return took, knownF1, nil
+	return took, literalPortAsDomain, nil
 }
 
 // ---------------------------------------------------------------------------
